@@ -61,15 +61,16 @@ fn my_slot() -> usize {
 }
 
 /// record the case this thread is about to run: three length-prefixed tapes
-pub fn begin_case(a: &[u8], b: &[u8], c: &[u8]) {
+pub fn begin_case(a: &[u8], b: &[u8], c: &[u8], small: bool) {
     if !enabled() {
         return;
     }
     let s = &SLOTS[my_slot()];
     s.seq.fetch_add(1, Ordering::AcqRel);
     let buf = unsafe { &mut *s.buf.get() };
+    let flag = [small as u8];
     let mut p = 0usize;
-    for part in [a, b, c] {
+    for part in [a, b, c, &flag[..]] {
         let l = part.len().min((SLOT_BYTES - p).saturating_sub(4));
         if p + 4 > SLOT_BYTES {
             break;
@@ -125,6 +126,33 @@ extern "C" fn on_signal(_sig: libc::c_int) {
     }
 }
 
+/// cap the address space of this process (soft limit only, so children can lift it again): a case that
+/// makes the code under test allocate without bound ends in an allocation failure (abort) of this worker
+/// instead of taking the machine down
+pub fn limit_memory(gib: u64) {
+    unsafe {
+        let mut rl: libc::rlimit = std::mem::zeroed();
+        if libc::getrlimit(libc::RLIMIT_AS, &mut rl) == 0 {
+            rl.rlim_cur = (gib << 30) as libc::rlim_t;
+            if rl.rlim_max != libc::RLIM_INFINITY && rl.rlim_cur > rl.rlim_max {
+                rl.rlim_cur = rl.rlim_max;
+            }
+            libc::setrlimit(libc::RLIMIT_AS, &rl);
+        }
+    }
+}
+
+/// undo limit_memory in a child process (ASan-instrumented fuzz targets reserve terabytes of address space)
+pub fn unlimit_memory() {
+    unsafe {
+        let mut rl: libc::rlimit = std::mem::zeroed();
+        if libc::getrlimit(libc::RLIMIT_AS, &mut rl) == 0 {
+            rl.rlim_cur = rl.rlim_max;
+            libc::setrlimit(libc::RLIMIT_AS, &rl);
+        }
+    }
+}
+
 /// install handlers and the watchdog; `dir` receives crash-<slot>.bin / hang-<slot>.bin
 pub fn install(dir: &std::path::Path, hang_secs: u64) {
     let _ = std::fs::create_dir_all(dir);
@@ -172,8 +200,8 @@ pub fn install(dir: &std::path::Path, hang_secs: u64) {
         .expect("watchdog");
 }
 
-/// parse a dump file: (evaluations, nontrivial, tapes a, b, c)
-pub fn read_dump(path: &std::path::Path) -> Option<(u64, u64, Vec<u8>, Vec<u8>, Vec<u8>)> {
+/// parse a dump file: (evaluations, nontrivial, tapes a, b, c, small)
+pub fn read_dump(path: &std::path::Path) -> Option<(u64, u64, Vec<u8>, Vec<u8>, Vec<u8>, bool)> {
     let d = std::fs::read(path).ok()?;
     if d.len() < 16 {
         return None;
@@ -182,7 +210,7 @@ pub fn read_dump(path: &std::path::Path) -> Option<(u64, u64, Vec<u8>, Vec<u8>, 
     let n = u64::from_le_bytes(d[8..16].try_into().ok()?);
     let mut p = 16;
     let mut parts = Vec::new();
-    for _ in 0..3 {
+    for _ in 0..4 {
         if p + 4 > d.len() {
             parts.push(Vec::new());
             continue;
@@ -193,8 +221,9 @@ pub fn read_dump(path: &std::path::Path) -> Option<(u64, u64, Vec<u8>, Vec<u8>, 
         parts.push(d[p..end].to_vec());
         p = end;
     }
+    let small = parts.pop()?.first().copied().unwrap_or(0) != 0;
     let c = parts.pop()?;
     let b = parts.pop()?;
     let a = parts.pop()?;
-    Some((e, n, a, b, c))
+    Some((e, n, a, b, c, small))
 }
